@@ -40,6 +40,7 @@ type run struct {
 	steps    []sim.Step
 	dead     bool
 	n        int
+	seenState map[uint64]int
 	seenT    map[uint64]bool
 	seenS    map[uint64]bool
 }
@@ -103,6 +104,11 @@ func classify(pre *pokerface.GameState, st *sim.Step) opClass {
 	}
 	if seat < 0 || seat >= len(pre.Players) || !contains(pre.Players[seat].AllowedActions, st.Op) {
 		return opClass{false, "action-not-offered", seat}
+	}
+	// a raise request to exactly the wager to match is a call: it is only
+	// legitimate when call is offered as well
+	if st.Op == "raise" && arg0(st) == pre.Status.CurrentWager && !contains(pre.Players[seat].AllowedActions, "call") {
+		return opClass{false, "action-not-offered (raise to the wager to match = call)", seat}
 	}
 	return opClass{true, "action-offered", seat}
 }
